@@ -87,6 +87,19 @@ Definition wire_ok (p : str) : bool := forallb hdr_byte_ok p.
 Definition serve (unk : bool) (reg : registry) (p : str) : outcome :=
   if wire_ok p then dispatch unk reg p else Rejected.
 
+(* http = the server is driven through Server.ServeHTTP (net/http handler transport): net/http
+   refuses a :path that is empty, does not start with '/' or contains a TAB before gRPC sees
+   it (the client gets INTERNAL); every other path reaches handleStream unchanged.  (Paths with '%', '?' or
+   '#' are rewritten by net/http's URL parsing; the driver does not generate them.) *)
+Definition starts_slash (p : str) : bool :=
+  match p with c :: _ => c =? slash | [] => false end.
+(* net/http: url.ParseRequestURI needs the leading '/' and refuses every control byte, TAB too *)
+Definition http_ok (p : str) : bool := starts_slash p && forallb (fun c => negb (c =? 9)) p.
+Definition transport_ok (http : bool) (p : str) : bool :=
+  wire_ok p && (negb http || http_ok p).
+Definition serve_t (http unk : bool) (reg : registry) (p : str) : outcome :=
+  if transport_ok http p then dispatch unk reg p else Rejected.
+
 (* ---- the property's own vocabulary (independent of split_last and find_svc) ---- *)
 
 Definition has_slash (s : str) : bool := existsb (fun c => c =? slash) s.
@@ -163,7 +176,7 @@ Definition get_cfg (cfg : word) : option (bool * registry) :=
   | unk :: n :: w =>
     if n <? 0 then None else
     match get_svcs (Z.to_nat n) w with
-    | Some (reg, []) => Some (z2b unk, reg)
+    | Some (reg, []) => Some (z2b (unk mod 2), reg)
     | _ => None
     end
   | _ => None
@@ -171,6 +184,10 @@ Definition get_cfg (cfg : word) : option (bool * registry) :=
 
 (* op [1; path] = unary Invoke, op [2; path] = the same call through NewStream:
    both reach handleStream with the same :path *)
+(* cfg flags: bit 0 = unknown-service handler installed, bit 1 = served through ServeHTTP *)
+Definition get_http (cfg : word) : bool :=
+  match cfg with f :: _ => z2b ((f / 2) mod 2) | [] => false end.
+
 Definition get_op (op : word) : option str :=
   match op with
   | k :: r => if (k =? 1) || (k =? 2)
@@ -188,19 +205,19 @@ Definition obs_of (o : outcome) : word :=
   | Rejected => [0; 0; 0; 0; 13; 0; 1; 1]
   end.
 
-Fixpoint run_ops (unk : bool) (reg : registry) (ops : list word) : option (list word) :=
+Fixpoint run_ops (http unk : bool) (reg : registry) (ops : list word) : option (list word) :=
   match ops with
   | [] => Some []
   | op :: r =>
-    match get_op op, run_ops unk reg r with
-    | Some p, Some os => Some (obs_of (serve unk reg p) :: os)
+    match get_op op, run_ops http unk reg r with
+    | Some p, Some os => Some (obs_of (serve_t http unk reg p) :: os)
     | _, _ => None
     end
   end.
 
 Definition run (cfg : word) (ops : list word) : option (list word) :=
   match get_cfg cfg with
-  | Some (unk, reg) => run_ops unk reg ops
+  | Some (unk, reg) => run_ops (get_http cfg) unk reg ops
   | None => None
   end.
 
@@ -214,7 +231,8 @@ Definition run (cfg : word) (ops : list word) : option (list word) :=
              the unknown-service handler) and UNIMPLEMENTED
    clause 4: (refuted, statement finding) a path naming a live registered (service, method)
              whose method name contains '/' ran that handler
-   clause 5: a path that is not a legal HTTP/2 header value reaches no handler *)
+   clause 5: a path that the transport refuses (not a legal HTTP/2 header value; with ServeHTTP
+             also: empty or no leading '/') reaches no handler *)
 Definition ran_handler (o : word) (i j : Z) : bool :=
   match o with
   | [nran; kind; i'; j'; code; _; methok; respok] =>
@@ -239,8 +257,8 @@ Definition plain_targets (reg : registry) (p : str) : list (Z * Z * str) :=
 Definition slash_targets (reg : registry) (p : str) : list (Z * Z * str) :=
   filter (fun t => has_slash (snd t)) (targets reg p).
 
-Definition clause_op (k : Z) (unk : bool) (reg : registry) (p : str) (o : word) : list (Z * Z * bool) :=
-  if negb (wire_ok p) then [(5, k, ran_none o)] else
+Definition clause_op (k : Z) (http unk : bool) (reg : registry) (p : str) (o : word) : list (Z * Z * bool) :=
+  if negb (transport_ok http p) then [(5, k, ran_none o)] else
   match plain_targets reg p with
   | (_ :: _) as ts => map (fun t => (1, k, ran_handler o (fst (fst t)) (snd (fst t)))) ts
   | [] =>
@@ -250,20 +268,20 @@ Definition clause_op (k : Z) (unk : bool) (reg : registry) (p : str) (o : word) 
   end ++
   map (fun t => (4, k, ran_handler o (fst (fst t)) (snd (fst t)))) (slash_targets reg p).
 
-Fixpoint clauses_ops (k : Z) (unk : bool) (reg : registry) (ops obs : list word) : list (Z * Z * bool) :=
+Fixpoint clauses_ops (k : Z) (http unk : bool) (reg : registry) (ops obs : list word) : list (Z * Z * bool) :=
   match ops, obs with
   | op :: r, o :: r' =>
     match get_op op with
-    | Some p => clause_op k unk reg p o
+    | Some p => clause_op k http unk reg p o
     | None => [(0, k, false)]
-    end ++ clauses_ops (k + 1) unk reg r r'
+    end ++ clauses_ops (k + 1) http unk reg r r'
   | [], [] => []
   | _, _ => [(0, k, false)]
   end.
 
 Definition clauses (cfg : word) (ops obs : list word) : list (Z * Z * bool) :=
   match get_cfg cfg with
-  | Some (unk, reg) => clauses_ops 0 unk reg ops obs
+  | Some (unk, reg) => clauses_ops 0 (get_http cfg) unk reg ops obs
   | None => [(0, 0, false)]
   end.
 
